@@ -733,14 +733,14 @@ def excluded_by_test(fn, tests, site_bbs, call_model=None):
     return out
 
 
-def always_after(fn, first_bbs, site_bbs, call_model=None, start=0):
+def always_after(fn, first_bbs, site_bbs, call_model=None, start=0, field_model=None):
     """Is every execution that reaches one of site_bbs one that went through one of first_bbs before? Dominance decided by
     constant propagation (the blocks of first_bbs are cut out; what is still reached did not need them), so that a flag
     computed on the way (`let stop = a()? || !b()?; if stop { return }`) does not hide the order."""
     first_bbs = set(first_bbs)
     if not first_bbs:
         return False
-    sx = Sccp(fn, call_model=call_model, stop_blocks=first_bbs).run([(start, {})])
+    sx = Sccp(fn, call_model=call_model, stop_blocks=first_bbs, field_model=field_model).run([(start, {})])
     return not any(s_ in sx.exec_blocks and s_ not in first_bbs for s_ in site_bbs)
 
 
